@@ -92,7 +92,7 @@ func (l *tLog) render() string {
 			fmt.Fprintf(&sb, " %d %d", e.k, e.st)
 		case "q":
 			fmt.Fprintf(&sb, " %d", e.k)
-		case "o", "cb":
+		case "o", "cb", "e":
 			fmt.Fprintf(&sb, " %d %d", e.k, len(e.ids))
 			for _, id := range e.ids {
 				fmt.Fprintf(&sb, " %d", id)
@@ -110,10 +110,11 @@ func (l *tLog) render() string {
 
 // bRig wires one real Batcher to the log: trace sink entries for its id, the controller, letters.
 type bRig struct {
-	log   *tLog
-	upper bool // dead-queue batcher: upper-case tokens
-	id    uint64
-	evs   map[uint64]*evSpec
+	log     *tLog
+	upper   bool // dead-queue batcher: upper-case tokens
+	id      uint64
+	batcher *pipeline.Batcher
+	evs     map[uint64]*evSpec
 	// notifications to the scheduler
 	note chan note
 	// gate control
@@ -170,6 +171,9 @@ func (r *bRig) trace(kind string, a uint64) {
 		r.log.add(&tEntry{tok: r.t("h")})
 	case "b.seal":
 		e := &tEntry{tok: r.t("s"), k: int64(a), st: -1}
+		if r.batcher != nil {
+			e.st = r.batcher.VerifCurBatchStatus() // we are inside b.mu here
+		}
 		r.log.mu.Lock()
 		r.log.entries = append(r.log.entries, e)
 		r.log.seals[fmt.Sprintf("%s:%d", r.tag(), a)] = e
@@ -200,7 +204,7 @@ func (r *bRig) gate(point string, a uint64) {
 	case "b.enqueue":
 		seq, st := int64(a>>2), int(a&3)
 		r.log.mu.Lock()
-		if e := r.log.seals[fmt.Sprintf("%s:%d", r.tag(), seq)]; e != nil {
+		if e := r.log.seals[fmt.Sprintf("%s:%d", r.tag(), seq)]; e != nil && e.st < 0 {
 			e.st = st
 		}
 		r.log.mu.Unlock()
@@ -390,6 +394,7 @@ func execC08(t *hx.Toks) string {
 		MetricCtl:    metric.NewCtl("", prometheus.NewRegistry(), time.Minute, 0),
 	})
 	rig.id = pipeline.VerifBatcherID(batcher)
+	rig.batcher = batcher
 	uninstall := installSinks(rig)
 	defer uninstall()
 	ctx, cancel := context.WithCancel(context.Background())
